@@ -19,24 +19,29 @@ class Kit:
         self.P = env.P
         self.operands = []      # [(name, ('priv'|'pub', index))] wires created for the harness inputs, in order
 
-    def _rec(self, nm, kind):
+    def _next(self, kind):
         rec = self.env.rec
-        n = len(rec.privvals) if kind == "priv" else len(rec.pubvals)
-        self.operands.append((nm, (kind, n - 1)))
+        return len(rec.privvals) if kind == "priv" else len(rec.pubvals)
+
+    def _rec(self, nm, kind, idx=None):
+        if idx is None:
+            idx = self._next(kind) - 1
+        self.operands.append((nm, (kind, idx)))
 
     def v(self, nm): return self.vals[nm]
 
+    # the input wire is the first one the constructor allocates (under a guard more wires follow: dummies)
     def S(self, nm):
-        r = self.rt.PrivVal(self.vals[nm]); self._rec(nm, "priv"); return r
+        i = self._next("priv"); r = self.rt.PrivVal(self.vals[nm]); self._rec(nm, "priv", i); return r
 
     def Pub(self, nm):
-        r = self.rt.PubVal(self.vals[nm]); self._rec(nm, "pub"); return r
+        i = self._next("pub"); r = self.rt.PubVal(self.vals[nm]); self._rec(nm, "pub", i); return r
 
     def B(self, nm):
-        r = self.bo.PrivValBool(self.vals[nm]); self._rec(nm, "priv"); return r
+        i = self._next("priv"); r = self.bo.PrivValBool(self.vals[nm]); self._rec(nm, "priv", i); return r
 
     def F(self, nm):                       # input = representation integer
-        r = self.fx.PrivValFxp(self.vals[nm], False); self._rec(nm, "priv"); return r
+        i = self._next("priv"); r = self.fx.PrivValFxp(self.vals[nm], False); self._rec(nm, "priv", i); return r
 
     G = S                                  # guard wires are operands too
 
